@@ -66,8 +66,9 @@ pub fn compile_to_avbc_with_output(
         vm.set_script_path(path.display().to_string());
     }
 
-    let (imports, loader) = load_modules_with_loader(&stmts, path, src.clone(), &mut vm)
+    let (mut imports, loader) = load_modules_with_loader(&stmts, path, src.clone(), &mut vm)
         .map_err(|err| err.to_string())?;
+    imports.include_auto_registered(&vm);
 
     let main_stmts: Vec<_> = stmts
         .into_iter()
@@ -210,8 +211,9 @@ pub fn emit_air(path: &str, opt_level: OptimizationLevel) -> Result<i32, String>
         vm.set_script_path(path.display().to_string());
     }
 
-    let (imports, _) = load_modules_with_loader(&stmts, path, src.clone(), &mut vm)
+    let (mut imports, _) = load_modules_with_loader(&stmts, path, src.clone(), &mut vm)
         .map_err(|err| err.to_string())?;
+    imports.include_auto_registered(&vm);
 
     let main_stmts: Vec<_> = stmts
         .into_iter()
